@@ -57,6 +57,18 @@ def run(ctx):
         cs = {c.split("::{closure")[0] for c in callers_of.get(name, ())} - {name}
         return bool(cs) and all(part_of_primitive(c, depth - 1) for c in cs)
     extra = [m for m in muts if not part_of_primitive(m)]
+    # (a function that does not exist on the pinned tree is a new way to edit a frame whose effect this rule cannot tell — a table of
+    # what it does to a chain of frames would need its arguments; an existing function that starts to edit frames is the violation)
+    try:
+        import json as _json3, os as _os3
+        known_fns3 = set(_json3.load(open(_os3.path.join(_os3.path.dirname(_os3.path.dirname(_os3.path.abspath(__file__))), "c07_baseline.json"))).get("functions", []))
+    except Exception:
+        known_fns3 = None
+    new_fns = [m for m in extra if known_fns3 is not None and m.split("::{closure")[0] not in known_fns3]
+    extra = [m for m in extra if m not in new_fns]
+    if new_fns:
+        ctx.undecided("C03-set-in-place", "mutators", "the binding table is borrowed mutably by the new function(s) %s: what they do to the "
+                      "bindings closures share is not decided" % new_fns, None)
     if extra:
         ctx.report("C03-set-in-place", "mutators", "the binding table is borrowed mutably by %s (only define, set and get_mut "
                    "may)" % extra, None)
